@@ -128,7 +128,9 @@ Definition job_write_lease (j : slab) : slab * wres :=
   | Some _ => (set_txlen j1 (s_leaselen j), WStaged)
   | None => (j1, WSent (s_raddr j) (tx_get (s_tx j) (s_leaselen j)))
   end.
-(* LeaseWire + append *)
+(* LeaseWire + append.  udpJob.LeaseWire is TRANSLATED (Gen.C10.go_udpJob_LeaseWire): it returns
+   j.tx[:0] (or nil for a capacity beyond the buffer) — Proofs_Edns.gen_udpJob_LeaseWire *)
+Definition udp_lease_start : N := 0.
 Definition job_lease (j : slab) : slab := set_leaselen j (N.to_nat udp_lease_start).
 Definition job_append (j : slab) (bs : list byte) : option slab :=
   if udp_buf_size <? N.of_nat (s_leaselen j + length bs) then None   (* append would reallocate: not this path *)
@@ -235,14 +237,40 @@ Definition send_event (c : cfg) (sid : nat) (j : slab) : list event :=
   | O => []
   | n => [ESend sid (s_lease j) (send_dest c j) (tx_get (s_tx j) n)]
   end.
-(* oldest first *)
-Definition flush_events (c : cfg) (s : ust) (sids : list nat) : list event :=
+(* one sendGroup: the events of one socket's run of a burst, oldest first *)
+Definition group_events (c : cfg) (s : ust) (sids : list nat) : list event :=
   let ev (want_direct : bool) :=
     flat_map (fun sid => match get_slab s sid with
                          | Some j => if Bool.eqb (is_direct c j) want_direct then send_event c sid j else []
                          | None => []
                          end) sids in
   if c_batchtx c then ev true ++ ev false else ev true.
+
+(* SEVERAL SOCKETS (wave 5).  An engine serves a list of sockets (an SO_REUSEPORT group, or one
+   socket per bound address) that share the slab cache, the lease counter, the ready queue and
+   the workers; reader r reads socket r.  A client "address" of this model is a FLOW: the client's
+   address/port AND the server socket its datagrams arrive on — the kernel's reuseport hash or
+   the destination address fixes that socket per flow.  Flows are numbered socket * 1024 +
+   client, so [sock_of] is the socket (j.pc, assigned next to j.raddr by both readers) a reply
+   must leave from.  flushTX cuts a burst into maximal runs of consecutive jobs of one socket
+   and calls sendGroup once per run (one sendmmsg carries one socket's datagrams). *)
+Definition sock_of (a : N) : N := a / 1024.
+Definition job_sock (s : ust) (sid : nat) : N :=
+  match get_slab s sid with Some j => sock_of (s_raddr j) | None => 0 end.
+Fixpoint runs_by_sock (s : ust) (sids : list nat) : list (list nat) :=
+  match sids with
+  | [] => []
+  | sid :: r =>
+      match runs_by_sock s r with
+      | (sid2 :: g) :: gs => if job_sock s sid =? job_sock s sid2 then (sid :: sid2 :: g) :: gs
+                             else [sid] :: (sid2 :: g) :: gs
+      | [] :: gs => [sid] :: gs        (* never arises: a run is not empty *)
+      | [] => [[sid]]
+      end
+  end.
+(* oldest first *)
+Definition flush_events (c : cfg) (s : ust) (sids : list nat) : list event :=
+  flat_map (group_events c s) (runs_by_sock s sids).
 
 (* flushTX(b): send every staged job of burst slot b (sendGroup), then burst.release():
    for each slot in order: jobs[i] = nil; j.release(udpJobServing) *)
